@@ -1,0 +1,87 @@
+// Copyright ©2026 The Gonum Authors. All rights reserved.
+// Use of this source code is governed by a BSD-style
+// license that can be found in the LICENSE file.
+
+//go:build verif
+
+// Package verifhook provides instrumentation points used by external
+// model-based conformance checks. With the verif build tag a tracer and
+// an Ilaenv override can be installed; with none installed the hooks do
+// nothing.
+package verifhook
+
+import (
+	"fmt"
+	"reflect"
+	"sync/atomic"
+)
+
+// Enabled reports whether the hooks are compiled in.
+const Enabled = true
+
+// Tracer receives events. It must be safe for concurrent use.
+type Tracer func(actor, ev string, a, b, c int64)
+
+var (
+	tracer   atomic.Pointer[Tracer]
+	ilaenv   atomic.Pointer[IlaenvFunc]
+	actorSeq atomic.Int64
+)
+
+// IlaenvFunc overrides lapack/gonum's Ilaenv when it returns ok.
+type IlaenvFunc func(ispec int, name, opts string, n1, n2, n3, n4 int) (v int, ok bool)
+
+// SetTracer installs t (nil removes the tracer).
+func SetTracer(t Tracer) {
+	if t == nil {
+		tracer.Store(nil)
+		return
+	}
+	tracer.Store(&t)
+}
+
+// SetIlaenv installs f (nil removes the override).
+func SetIlaenv(f IlaenvFunc) {
+	if f == nil {
+		ilaenv.Store(nil)
+		return
+	}
+	ilaenv.Store(&f)
+}
+
+// Actor returns a fresh identifier "<kind>#<n>" for the calling goroutine's role.
+func Actor(kind string) string {
+	if tracer.Load() == nil {
+		return kind
+	}
+	return fmt.Sprintf("%s#%d", kind, actorSeq.Add(1))
+}
+
+// Emit records an event of the given actor.
+func Emit(actor, ev string, a, b, c int64) {
+	if t := tracer.Load(); t != nil {
+		(*t)(actor, ev, a, b, c)
+	}
+}
+
+// Ptr returns a stable integer identity for a pointer, slice or map value.
+func Ptr(p any) int64 {
+	if tracer.Load() == nil || p == nil {
+		return 0
+	}
+	v := reflect.ValueOf(p)
+	switch v.Kind() {
+	case reflect.Pointer, reflect.Slice, reflect.Map, reflect.Chan, reflect.Func, reflect.UnsafePointer:
+		return int64(v.Pointer())
+	}
+	return 0
+}
+
+// Ilaenv allows the block-size parameters returned by lapack's
+// Ilaenv to be overridden.
+func Ilaenv(ispec int, name, opts string, n1, n2, n3, n4 int) (int, bool) {
+	if f := ilaenv.Load(); f != nil {
+		return (*f)(ispec, name, opts, n1, n2, n3, n4)
+	}
+	return 0, false
+}
